@@ -304,4 +304,65 @@ theorem hasDerivAt_logNormal_curve (A : ℝ → Matrix m m ℝ) (D : Matrix m m 
 
 end curve
 
+/-! ## Leave-one-out objective along a curve
+
+With `a i = [A⁻¹]ᵢᵢ` and `b = A⁻¹ r` the code's LOO summand is `−½ log σ²ᵢ − ½ (yᵢ − μᵢ)²/σ²ᵢ = ½ log aᵢ − ½ bᵢ²/aᵢ`
+(`σ²ᵢ = 1/aᵢ`, `yᵢ − μᵢ = bᵢ/aᵢ`).  Its derivative along any differentiable curve of covariances and means follows
+from `hasDerivAt_inv_curve` entry by entry. -/
+
+section loo
+
+/-- entries of the inverse along a curve. -/
+theorem hasDerivAt_inv_entry (A : ℝ → Matrix m m ℝ) (D : Matrix m m ℝ)
+    (hA : ∀ i j, HasDerivAt (fun t => A t i j) (D i j) 0) (hK : IsUnit (A 0).det) (i j : m) :
+    HasDerivAt (fun t => (A t)⁻¹ i j) (-(((A 0)⁻¹ * D * (A 0)⁻¹) i j)) 0 := by
+  have := hasDerivAt_inv_curve A D hA hK (Pi.single i 1) (Pi.single j 1)
+  simpa [Matrix.mulVec_single_one, single_one_dotProduct] using this
+
+/-- `b(t) = A(t)⁻¹ (y − μ(t))` entrywise. -/
+theorem hasDerivAt_inv_mulVec_entry (A : ℝ → Matrix m m ℝ) (D : Matrix m m ℝ) (μ : ℝ → m → ℝ) (dμ y : m → ℝ)
+    (hA : ∀ i j, HasDerivAt (fun t => A t i j) (D i j) 0) (hμ : ∀ i, HasDerivAt (fun t => μ t i) (dμ i) 0)
+    (hK : IsUnit (A 0).det) (i : m) :
+    HasDerivAt (fun t => ((A t)⁻¹ *ᵥ (y - μ t)) i)
+      (-((((A 0)⁻¹ * D * (A 0)⁻¹) *ᵥ (y - μ 0)) i) - ((A 0)⁻¹ *ᵥ dμ) i) 0 := by
+  have hr : ∀ j, HasDerivAt (fun t => (y - μ t) j) (-(dμ j)) 0 := fun j => by
+    have := (hμ j).const_sub (y j); simpa using this
+  have hfun : (fun t => ((A t)⁻¹ *ᵥ (y - μ t)) i) = fun t => ∑ j, (A t)⁻¹ i j * (y - μ t) j := by
+    funext t; simp [Matrix.mulVec, dotProduct]
+  rw [hfun]
+  have := HasDerivAt.fun_sum (u := Finset.univ) fun j _ => (hasDerivAt_inv_entry A D hA hK i j).mul (hr j)
+  refine this.congr_deriv ?_
+  simp only [Matrix.mulVec, dotProduct, Pi.sub_apply]
+  rw [← Finset.sum_neg_distrib, ← Finset.sum_sub_distrib]
+  refine Finset.sum_congr rfl fun j _ => ?_
+  ring
+
+/-- **Gradient of the leave-one-out objective's rational part along any differentiable curve.** -/
+theorem hasDerivAt_loo_curve (A : ℝ → Matrix m m ℝ) (D : Matrix m m ℝ) (μ : ℝ → m → ℝ) (dμ y : m → ℝ)
+    (hA : ∀ i j, HasDerivAt (fun t => A t i j) (D i j) 0) (hμ : ∀ i, HasDerivAt (fun t => μ t i) (dμ i) 0)
+    (hK : IsUnit (A 0).det) (hpos : ∀ i, 0 < (A 0)⁻¹ i i) :
+    HasDerivAt
+      (fun t => ∑ i, ((1 / 2) * Real.log ((A t)⁻¹ i i)
+        - (1 / 2) * (((A t)⁻¹ *ᵥ (y - μ t)) i) ^ 2 / (A t)⁻¹ i i))
+      (∑ i,
+        let a := (A 0)⁻¹ i i
+        let a' := -(((A 0)⁻¹ * D * (A 0)⁻¹) i i)
+        let b := ((A 0)⁻¹ *ᵥ (y - μ 0)) i
+        let b' := -((((A 0)⁻¹ * D * (A 0)⁻¹) *ᵥ (y - μ 0)) i) - ((A 0)⁻¹ *ᵥ dμ) i
+        (1 / 2) * a' / a - b * b' / a + (1 / 2) * b ^ 2 * a' / a ^ 2) 0 := by
+  refine HasDerivAt.fun_sum fun i _ => ?_
+  have ha := hasDerivAt_inv_entry A D hA hK i i
+  have hb := hasDerivAt_inv_mulVec_entry A D μ dμ y hA hμ hK i
+  have hne : (A 0)⁻¹ i i ≠ 0 := (hpos i).ne'
+  have h1 := (ha.log hne).const_mul (1 / 2 : ℝ)
+  have h2 := (((hb.mul hb).div ha hne).const_mul (1 / 2 : ℝ))
+  refine ((h1.sub h2).congr_deriv ?_).congr_of_eventuallyEq (Filter.Eventually.of_forall fun t => ?_)
+  · simp only [Pi.mul_apply]
+    field_simp
+    ring
+  · simp only [Pi.mul_apply, Pi.div_apply, Pi.sub_apply]
+    ring
+
+end loo
+
 end MLLGrad
